@@ -94,14 +94,21 @@ TSlotTimeout ==
 TDialBegin == IsEvent("td.dial.begin") /\ E.pos = CurPos(G) /\ DialBegin(G)
 
 \* E.a: 0 connected, 1 non-timeout error, 2 timeout
+\* The code calls a failed connect a timeout iff ctx.Err() is set at that moment (or the error is
+\* a net timeout): a connect that was REFUSED just as the deadline passed (a = 1) is reported as
+\* ErrDialTimeout as well.  So a = 1 is either "refused" or, with the deadline fired, "timeout";
+\* the dial's h.return line decides which one it was.
+TDialEndTimeout ==
+  /\ expired' = [expired EXCEPT ![G] = TRUE]
+  /\ lastErr' = [lastErr EXCEPT ![G] = "timeout"]
+  /\ pc' = [pc EXCEPT ![G] = IF Conc > 0 THEN "release" ELSE "dialed"]
+  /\ UNCHANGED <<host, idx, tried, order, result, slots, rot, used>>
+
 TDialEnd ==
   /\ IsEvent("td.dial.end") /\ pc[G] = "dialing"
   /\ CASE E.a = 0 -> DialEnd(G, "ok")
-       [] E.a = 1 -> DialEnd(G, "refused")
-       [] E.a = 2 -> /\ expired' = [expired EXCEPT ![G] = TRUE]
-                     /\ lastErr' = [lastErr EXCEPT ![G] = "timeout"]
-                     /\ pc' = [pc EXCEPT ![G] = IF Conc > 0 THEN "release" ELSE "dialed"]
-                     /\ UNCHANGED <<host, idx, tried, order, result, slots, rot, used>>
+       [] E.a = 1 -> DialEnd(G, "refused") \/ TDialEndTimeout
+       [] E.a = 2 -> TDialEndTimeout
 
 TSlotRel == IsEvent("td.slot.rel") /\ ReleaseSlot(G)
 
